@@ -474,4 +474,22 @@ def renameRegexp (names : List String) (b : Bag) : Bag × List (String × String
   let rows := renameList b.rows names
   ({ b with rows := rows, index := rebuildIndex rows }, renameMap (b.rows.map (·.name)) names [])
 
+/-! ### `SetAlphabet` -/
+
+/-- the decision of `SetAlphabet(alphabet)` given the alphabet `DetectAlphabet()` found: the alphabet to set, or
+`none` = an error (nothing detected; an alphabet other than the two; an alphabet the sequences do not fit) -/
+def setAlphabetResult (alphabet : Int) (detected : Nat) : Option Nat :=
+  if detected == UNKNOWN then none
+  else if alphabet == (NUCLEOTIDS : Nat) then
+    (if detected == NUCLEOTIDS || detected == BOTH then some NUCLEOTIDS else none)
+  else if alphabet == (AMINOACIDS : Nat) then
+    (if detected == AMINOACIDS || detected == BOTH then some AMINOACIDS else none)
+  else none
+
+/-- `SetAlphabet(alphabet)`: only the field `alphabet` can change; `true` = an error was returned -/
+def setAlphabet (alphabet : Int) (b : Bag) : Bag × Bool :=
+  match setAlphabetResult alphabet (detectAlphabetBag (b.rows.map (·.seq))) with
+  | some a => ({ b with alphabet := a }, false)
+  | none => (b, true)
+
 end Gv.Model
